@@ -1,5 +1,6 @@
 #![allow(dead_code)]
 mod allocsc;
+mod c09;
 mod c14;
 mod crash;
 mod enumchk;
@@ -13,6 +14,7 @@ mod report;
 mod sched;
 mod seq;
 mod simio;
+mod watchdog;
 mod spec;
 mod world;
 
